@@ -14,7 +14,7 @@ from .stubs import LinEnv, Obj, NumState, real_state
 
 RULE = ("random land masks 5..12 x 5..12, particle positions anywhere in the grid incl. cell borders and corners; histories of "
         "3..8 steps with tracker moves / stuck particles / releases / removals, under the real ladim.state.State and under "
-        "fresh-array stubs, for the three strategies; eel and saithe directed swimming next to land and to the grid edge. "
+        "fresh-array stubs, for the three strategies; half of the histories release from a point source and remove/release in the same step (constant count, changed pid set); eel and saithe directed swimming next to land and to the grid edge. "
         "Non-trivial: every history step / query.")
 ASSUMPTIONS = ["LADiM 2.3.3 State/tracker semantics (in-place position writes, reallocation on append/remove) are reproduced by the harness loop"]
 
@@ -76,7 +76,7 @@ def histories(ctx, drv, pend, G):
                                          ("mine", "reposition", "real"), ("mine", "reposition", "stub"),
                                          ("chemicals", "coastal_diffusion", "real"), ("chemicals", "freeze", "real")]:
         site = "ladim_plugins/%s/ibm.py::reposition" % modname if strategy == "reposition" else "ladim_plugins/chemicals/ibm.py::" + strategy
-        for h in range(ctx.n(10, 150)):
+        for h in range(ctx.n(40, 400)):
             r = ctx.rng.randrange(6, 12); cc = ctx.rng.randrange(6, 12)
             Msea = np.array([[1 if ctx.rng.random() < 0.75 else 0 for _ in range(cc)] for _ in range(r)])
             env = LinEnv(h0=50.0, xmin=0.0, xmax=cc - 1.0, ymin=0.0, ymax=r - 1.0)
@@ -84,7 +84,11 @@ def histories(ctx, drv, pend, G):
             g.grid = Obj(is_close_to_land=lambda x, y, _M=Msea: G.is_close_to_land(_M, x, y))
             ibm = make_ibm(modname, strategy)
             n0 = ctx.rng.randrange(1, 6)
-            newp = lambda n: dict(X=np.array([ctx.rng.uniform(0.6, cc - 1.6) for _ in range(n)]), Y=np.array([ctx.rng.uniform(0.6, r - 1.6) for _ in range(n)]),
+            # half of the histories release from a point source (every new particle at exactly the same position,
+            # as a `location: [lon, lat]` release does), so that a new particle can sit exactly where another one was
+            source = (ctx.rng.uniform(0.6, cc - 1.6), ctx.rng.uniform(0.6, r - 1.6)) if ctx.rng.random() < 0.5 else None
+            newp = lambda n: dict(X=np.array([source[0] if source else ctx.rng.uniform(0.6, cc - 1.6) for _ in range(n)]),
+                                  Y=np.array([source[1] if source else ctx.rng.uniform(0.6, r - 1.6) for _ in range(n)]),
                                   Z=np.full(n, 5.0), age=np.zeros(n), sink_vel=np.full(n, 1e-9))
             if container == "real":
                 state = real_state(dt=60.0, **newp(n0))
@@ -96,7 +100,7 @@ def histories(ctx, drv, pend, G):
             realloc = True
             for step in range(ctx.rng.randrange(3, 9)):
                 # --- release
-                if container == "real" and ctx.rng.random() < 0.3:
+                if container == "real" and ctx.rng.random() < (0.6 if source else 0.3):
                     k = ctx.rng.randrange(1, 3)
                     state.append(newp(k)); realloc = True
                 # --- tracker: in-place writes for the real State; fresh arrays for the stub
@@ -153,7 +157,7 @@ def histories(ctx, drv, pend, G):
                 prev = {int(p): (float(x), float(y)) for p, x, y in zip(pids, xa, ya)}
                 realloc = False
                 # --- removal of dead particles (LADiM removes after the IBM update)
-                if container == "real" and ctx.rng.random() < 0.3 and len(state.X) > 1:
+                if container == "real" and ctx.rng.random() < (0.6 if source else 0.3) and len(state.X) > 1:
                     kill = np.zeros(len(state.X), bool); kill[ctx.rng.randrange(len(state.X))] = True
                     state.remove(kill); realloc = True
                     prev = {p: v for p, v in prev.items() if p in set(int(q) for q in state.pid)}
